@@ -8,9 +8,11 @@
   Part 1  the value / initial-condition / polarity rules: a series chain (parallel group) of like
           elements of ANY length, in either orientation, has the same port relation as ONE element
           with the stated value — proved by induction over the list, for every analysis kind.
-          The combined value is `combineVal` of the model (what the code computes); polarised
-          quantities enter with their sign, shared quantities are taken once.  Where the code's rule
-          (plain sums) differs, `code_rule_*` theorems give the exact guard under which they agree.
+          The combined value / initial condition is `combineVal` / `combineSrc` / `combineIC` of the
+          model (what the code computes): polarised quantities enter with their sign relative to
+          the surviving element, shared quantities are taken once.  `rule_V_unique`,
+          `rule_L_ic_unique` show that no other value would do (the plain sums of the original
+          code, findings F4 and F5, are refuted by `plain_sum_wrong_*`).
   Part 2  circuit level: replacing a sub-netlist by one with the same port relation preserves
           `Laws` on everything retained (`subcircuit_congruence`), hence — by uniqueness of the MNA
           solution (C01) — every retained voltage and current (`rewrite_preserves_retained`);
@@ -48,10 +50,14 @@ theorem series_chain_Y (kind : Kind) (s : K) (ys : List K) (h : ∀ y ∈ ys, y 
   rw [chain_of_thev kind s TT.Y (fun y => 1 / y) (fun _ => 0) ys (fun r hr => thev_Y kind s r (h r hr)),
     thev_Y kind s _ hc v i, combineVal_recip, sumK_map_zero, one_div_one_div]
 
+theorem combineSrc_eq (vs : List (Bool × K)) : combineSrc vs = sumK (vs.map (fun p => sgn p.1 p.2)) := by
+  simp only [combineSrc, sumVals_eq_sumK, sgn]
+
+/-- series voltage sources add WITH their polarity (`combineSrc` is the code's rule) -/
 theorem series_chain_V (kind : Kind) (s : K) (vs : List (Bool × K)) (v i : K) :
     chainRel kind s (vs.map (fun p => (TT.V p.2).orient p.1)) v i ↔
-      TT.rel kind s (.V (sumK (vs.map (fun p => sgn p.1 p.2)))) v i := by
-  rw [chain_of_thev kind s (fun p : Bool × K => (TT.V p.2).orient p.1) (fun _ => 0) (fun p => sgn p.1 p.2) vs
+      TT.rel kind s (.V (combineSrc vs)) v i := by
+  rw [combineSrc_eq, chain_of_thev kind s (fun p : Bool × K => (TT.V p.2).orient p.1) (fun _ => 0) (fun p => sgn p.1 p.2) vs
     (fun p _ => by
       obtain ⟨σ, e⟩ := p
       cases σ <;> simp only [TT.orient, TT.flip, sgn, if_true, if_false, Bool.false_eq_true] <;> exact thev_V kind s _),
@@ -130,8 +136,8 @@ theorem parallel_group_Y (kind : Kind) (s : K) (ys : List K) (v i : K) :
 /-- parallel current sources add WITH their polarity -/
 theorem parallel_group_I (kind : Kind) (s : K) (js : List (Bool × K)) (v i : K) :
     groupRel kind s (js.map (fun p => (TT.I p.2).orient p.1)) v i ↔
-      TT.rel kind s (.I (sumK (js.map (fun p => sgn p.1 p.2)))) v i := by
-  rw [group_of_nort kind s (fun p : Bool × K => (TT.I p.2).orient p.1) (fun _ => 0) (fun p => -sgn p.1 p.2) js
+      TT.rel kind s (.I (combineSrc js)) v i := by
+  rw [combineSrc_eq, group_of_nort kind s (fun p : Bool × K => (TT.I p.2).orient p.1) (fun _ => 0) (fun p => -sgn p.1 p.2) js
     (fun p _ => by
       obtain ⟨σ, e⟩ := p
       cases σ <;> simp only [TT.orient, TT.flip, sgn, if_true, if_false, Bool.false_eq_true] <;> exact nort_I kind s _),
@@ -194,55 +200,130 @@ theorem combine_perm_invariant (add : Bool) {a b : List K} (h : a.Perm b) : comb
   · rw [combineVal_recip, combineVal_recip, sumK_perm (h.map _)]
   · rw [combineVal_add, combineVal_add, sumK_perm h]
 
-/-- … and neither does the code's combined initial condition, as long as the first element of the
-    set carries one (which element is first DOES matter otherwise: `combineIC` then returns `none`
-    or raises, see `combineIC_first_matters`) -/
-theorem combineIC_perm_invariant {a b : List (Option K)} (h : a.Perm b) (x y : K) :
-    combineIC (some x) a = combineIC (some y) b := by
-  have hall : a.all Option.isSome = b.all Option.isSome := by
+/-- … and neither does the combined initial condition: the additive rule is a sum … -/
+theorem combineIC_perm_invariant {a b : List (Bool × Option K)} (h : a.Perm b) (x y : Option K) :
+    combineIC false x a = combineIC false y b := by
+  have hall : a.all (fun p => p.2.isNone) = b.all (fun p => p.2.isNone) := by
     rw [Bool.eq_iff_iff]; simp only [List.all_eq_true]
     exact ⟨fun hh z hz => hh z (h.mem_iff.mpr hz), fun hh z hz => hh z (h.mem_iff.mp hz)⟩
-  simp only [combineIC, hall]
+  simp only [combineIC, hall, Bool.false_eq_true, if_false]
   split
-  · rw [sumVals_eq_sumK, sumVals_eq_sumK, sumK_perm (h.filterMap _)]
   · rfl
+  · rw [combineSrc_eq, combineSrc_eq, sumK_perm ((h.filterMap _).map _)]
 
-theorem combineIC_first_matters : combineIC (none : Option ℚ) [none, some 3] ≠ combineIC (some 3) [none, some 3] := by
-  simp [combineIC]
+/-- … and the shared rule returns the surviving element's own initial condition, which
+    `checkIC` has verified to be common to all members (`checkIC_sound`) -/
+theorem combineIC_shared (first : Option K) (l : List (Bool × Option K)) : combineIC true first l = first := rfl
 
-/-! ### where the code's rule and the proved rule coincide -/
+/-- what `_check_ic` establishes: all members carry the same signed initial condition -/
+theorem checkIC_sound [DecidableEq K] (ics : List (Bool × Option K)) (h : checkIC ics = true) :
+    ∃ I0 : K, ∀ p ∈ ics, sgn p.1 (icv p.2) = I0 := by
+  unfold checkIC at h
+  split at h
+  · rename_i hn
+    refine ⟨0, fun p hp => ?_⟩
+    have := List.all_eq_true.mp hn p hp
+    cases hp2 : p.2 with
+    | none => cases p.1 <;> simp [sgn, icv]
+    | some v => simp [hp2] at this
+  · split at h
+    · rename_i _ hs
+      -- every member has a value; the signed values are all equal to the first
+      cases ics with
+      | nil => exact ⟨0, fun p hp => by cases hp⟩
+      | cons q t =>
+        have hq := List.all_eq_true.mp hs q List.mem_cons_self
+        obtain ⟨σq, oq⟩ := q
+        cases oq with
+        | none => simp at hq
+        | some vq =>
+          simp only [List.filterMap_cons, Option.map_some] at h
+          refine ⟨sgn σq vq, fun p hp => ?_⟩
+          rcases List.mem_cons.mp hp with rfl | hp'
+          · simp [icv]
+          · have hp2 := List.all_eq_true.mp hs p (List.mem_cons_of_mem _ hp')
+            obtain ⟨σp, op⟩ := p
+            cases op with
+            | none => simp at hp2
+            | some vp =>
+              have hmem : (if σp then vp else -vp) ∈ t.filterMap (fun p => p.2.map (fun v => if p.1 then v else -v)) :=
+                List.mem_filterMap.mpr ⟨(σp, some vp), hp', rfl⟩
+              have := List.all_eq_true.mp h _ hmem
+              simp only [decide_eq_true_eq] at this
+              simpa [sgn, icv] using this
+    · exact absurd h (by simp)
 
-/-- two voltage sources describe the same relation iff their values are equal … -/
-theorem rel_V_inj (kind : Kind) (s a b : K) : (∀ v i, TT.rel kind s (.V a) v i ↔ TT.rel kind s (.V b) v i) ↔ a = b := by
+/-- the additive rule of the model is the signed sum used in `series_chain_C` / `parallel_group_L`
+    (a member without an initial condition contributes zero) -/
+theorem combineIC_additive (x : Option K) (l : List (Bool × Option K)) :
+    icv (combineIC false x l) = sumK (l.map (fun p => sgn p.1 (icv p.2))) := by
+  simp only [combineIC, Bool.false_eq_true, if_false]
+  have hsum : ∀ l : List (Bool × Option K),
+      combineSrc (l.filterMap (fun p => p.2.map (fun v => (p.1, v)))) = sumK (l.map (fun p => sgn p.1 (icv p.2))) := by
+    intro l
+    rw [combineSrc_eq]
+    induction l with
+    | nil => rfl
+    | cons p t ih =>
+      obtain ⟨σ, o⟩ := p
+      cases o with
+      | none =>
+        have h0 : sgn σ (icv (none : Option K)) = 0 := by cases σ <;> simp [sgn, icv]
+        simp only [List.filterMap_cons, Option.map_none, List.map_cons, sumK, h0, zero_add]
+        exact ih
+      | some v =>
+        simp only [List.filterMap_cons, Option.map_some, List.map_cons, sumK]
+        rw [ih]; rfl
+  split
+  · rename_i hn
+    rw [← hsum]
+    have : l.filterMap (fun p => p.2.map (fun v => (p.1, v))) = [] := by
+      rw [List.filterMap_eq_nil_iff]
+      intro p hp
+      have := List.all_eq_true.mp hn p hp
+      cases hp2 : p.2 with
+      | none => rfl
+      | some v => simp [hp2] at this
+    simp [this, icv, combineSrc, sumVals]
+  · simp only [icv, hsum]
+
+/-- an element's relation depends on its initial condition only through its value (absent = 0) -/
+theorem rel_ic_congr (kind : Kind) (s x : K) (a b : Option K) (h : icv a = icv b) (v i : K) :
+    (TT.rel kind s (.L x a) v i ↔ TT.rel kind s (.L x b) v i) ∧
+    (TT.rel kind s (.C x a) v i ↔ TT.rel kind s (.C x b) v i) := by
+  constructor
+  · cases kind <;> simp [TT.rel, h]
+  · cases kind
+    · simp [TT.rel, capCurrent]
+    · simp [TT.rel, capCurrent]
+    · simp only [TT.rel, capCurrent_ivp, h]
+    · simp [TT.rel, capCurrent]
+
+/-! ### no other value would do -/
+
+/-- two voltage sources describe the same relation iff their values are equal: the signed sum
+    is the ONLY correct value of the combined source -/
+theorem rule_V_unique (kind : Kind) (s a b : K) : (∀ v i, TT.rel kind s (.V a) v i ↔ TT.rel kind s (.V b) v i) ↔ a = b := by
   constructor
   · intro h; exact ((h a 0).mp rfl)
   · rintro rfl v i; rfl
 
-/-- … so the code's series voltage source `Σ vₖ` is right exactly when it equals the signed sum:
-    in particular when all members point the same way (`code_rule_V_same_orientation`) -/
-theorem code_rule_V (kind : Kind) (s : K) (vs : List (Bool × K)) :
-    (∀ v i, chainRel kind s (vs.map (fun p => (TT.V p.2).orient p.1)) v i ↔
-        TT.rel kind s (.V (combineVal true (vs.map (·.2)))) v i) ↔
-      combineVal true (vs.map (·.2)) = sumK (vs.map (fun p => sgn p.1 p.2)) := by
-  rw [← rel_V_inj kind s]
-  constructor
-  · intro h v i; rw [← h, series_chain_V]
-  · intro h v i; rw [h, series_chain_V]
-
-theorem code_rule_V_same_orientation (vs : List (Bool × K)) (h : ∀ p ∈ vs, p.1 = true) :
-    combineVal true (vs.map (·.2)) = sumK (vs.map (fun p => sgn p.1 p.2)) := by
-  rw [combineVal_add]
+/-- the rule agrees with the plain sum exactly when all members point the same way … -/
+theorem combineSrc_same_orientation (vs : List (Bool × K)) (h : ∀ p ∈ vs, p.1 = true) :
+    combineSrc vs = combineVal true (vs.map (·.2)) := by
+  rw [combineVal_add, combineSrc_eq]
   apply sumK_congr
   intro p hp; simp [sgn, h p hp]
 
-/-- F4: the rule of the code is wrong for `V1 1 2 5`, `V2 3 2 3` (opposite orientation): 8 ≠ 2 -/
-theorem code_rule_V_fails_opposite :
-    ¬ (combineVal true ([(true, (5 : ℚ)), (false, 3)].map (·.2)) = sumK ([(true, (5 : ℚ)), (false, 3)].map (fun p => sgn p.1 p.2))) := by
-  norm_num [combineVal, sumVals, sumK, sgn]
+/-- … and the plain sum is wrong otherwise (finding F4: `V1 1 2 5`, `V2 3 2 3`, 8 instead of 2) -/
+theorem plain_sum_wrong_for_opposite_sources :
+    combineSrc [(true, (5 : ℚ)), (false, 3)] = 2 ∧ combineVal true [(5 : ℚ), 3] = 8 := by
+  norm_num [combineSrc, combineVal, sumVals]
 
 /-- two inductors with initial currents describe the same relation (initial-value problem) iff
-    `l·a = l·b`: the code's summed current `n·I0` is right only when `l·(n−1)·I0 = 0` (F5) -/
-theorem rel_L_ic_inj (s l a b : K) :
+    `l·a = l·b`: the common current is the only correct one; the sum `n·I0` of the original code
+    is right only when `l·(n−1)·I0 = 0` (finding F5) -/
+theorem rule_L_ic_unique (s l a b : K) :
     (∀ v i, TT.rel .ivp s (.L l (some a)) v i ↔ TT.rel .ivp s (.L l (some b)) v i) ↔ l * a = l * b := by
   simp only [TT.rel, icv]
   constructor
@@ -251,7 +332,7 @@ theorem rel_L_ic_inj (s l a b : K) :
     linear_combination -this
   · intro h v i; rw [h]
 
-theorem code_rule_L_ic_fails : ¬ ((2 + 4 : ℚ) * (3 + 3) = (2 + 4) * 3) := by norm_num
+theorem plain_sum_wrong_for_series_L_ic : ¬ ((2 + 4 : ℚ) * (3 + 3) = (2 + 4) * 3) := by norm_num
 
 /-! ### the ten two-element equivalences (instances of the chain / group theorems) -/
 
@@ -267,7 +348,7 @@ theorem series_Z (kind : Kind) (s z1 z2 : K) (h1 : z1 ≠ 0) (h2 : z2 ≠ 0) (h 
 theorem series_V (kind : Kind) (s e1 e2 : K) (same : Bool) (v i : K) :
     chainRel kind s [.V e1, (TT.V e2).orient same] v i ↔ TT.rel kind s (.V (e1 + sgn same e2)) v i := by
   have := series_chain_V kind s [(true, e1), (same, e2)] v i
-  simpa [TT.orient, sgn, sumK] using this
+  simpa [TT.orient, sgn, sumK, combineSrc_eq] using this
 
 /-- series inductors with initial currents: equal (signed) currents required, and kept -/
 theorem series_L (kind : Kind) (s l1 l2 : K) (i1 i2 : Option K) (same : Bool) (I0 : K)
@@ -298,7 +379,7 @@ theorem parallel_Y (kind : Kind) (s y1 y2 : K) (v i : K) :
 theorem parallel_I (kind : Kind) (s j1 j2 : K) (same : Bool) (v i : K) :
     groupRel kind s [.I j1, (TT.I j2).orient same] v i ↔ TT.rel kind s (.I (j1 + sgn same j2)) v i := by
   have := parallel_group_I kind s [(true, j1), (same, j2)] v i
-  simpa [TT.orient, sgn, sumK] using this
+  simpa [TT.orient, sgn, sumK, combineSrc_eq] using this
 
 /-- parallel capacitors with initial voltages: equal (signed) voltages required, and kept -/
 theorem parallel_C (kind : Kind) (s c1 c2 : K) (v1 v2 : Option K) (same : Bool) (V0 : K)
